@@ -105,6 +105,59 @@ Definition wsgi_ok (fault : bool) (t : list fitem) : bool :=
   && preceded (ftok_is TPout Ebefore_ser) is_doc_ev false l
   && (fcount TPin Ebefore_deser l <=? 1) && (fcount TPin Eafter_deser l <=? 1).
 
+(* ------------------------------------------------------------------ the frame of a call, item level *)
+(** items a listener on the application / service / method managers can see *)
+Definition is_method_item (i : fitem) : bool :=
+  match i with FFire TCtx _ _ _ _ | FFire TApp _ _ _ _ | FFunc => true | _ => false end.
+Definition is_ev_item (e : ev) (i : fitem) : bool :=
+  match i with
+  | FFire TCtx e' _ _ _ => ev_eqb e e'
+  | FFire TApp e' _ _ _ => ev_eqb e e'
+  | _ => false
+  end.
+Fixpoint drop_nonmethod (l : list fitem) : list fitem :=
+  match l with
+  | [] => []
+  | i :: r => if is_method_item i then l else drop_nonmethod r
+  end.
+(** the trace is: the method_context_created firing of the constructor (descriptor unset, so it
+    reaches the application's manager only), then items among which neither created nor closed
+    is fired, then the method_context_closed firing on the application's manager, then only
+    protocol / transport items; both firings complete *)
+Definition frame_ok (t : list fitem) : bool :=
+  match t with
+  | FFire TCtx Ecreated false _ None :: r =>
+      match drop_nonmethod (rev r) with
+      | FFire TApp Eclosed _ _ None :: m =>
+          forallb (fun i => negb (is_ev_item Ecreated i || is_ev_item Eclosed i)) m
+      | _ => false
+      end
+  | _ => false
+  end.
+
+(** the listeners a firing reaches, in calling order *)
+Definition handlers_reached (parts : list fpart) (w : world) (dms : list emgr)
+           (t : target) (e : ev) (d : bool) : list lid :=
+  match t with
+  | TCtx => concat (map (fun m => em_get m e) (ctx_managers parts w dms d))
+  | TApp => em_get (w_app w) e
+  | TTpt => em_get (w_tpt w) e
+  | TPin => em_get (w_pin w) e
+  | TPout => em_get (w_pout w) e
+  end.
+
+(** what the listeners of the application / service / method managers are called with, and
+    the user function, in order *)
+Definition method_calls_of (i : fitem) : list call :=
+  match i with
+  | FFire TCtx e _ cs _ => map (LCall e) cs
+  | FFire TApp e _ cs _ => map (LCall e) cs
+  | FFire _ _ _ _ _ => []
+  | FFunc => [LFunc]
+  end.
+Definition method_calls (t : list fitem) : list call := flat_map method_calls_of t.
+Definition call_is (e : ev) (c : call) : bool := match c with LCall e' _ => ev_eqb e e' | LFunc => false end.
+
 (* ------------------------------------------------------------------ admissible injections *)
 (** the injection alphabet of the property: parsing / envelope / dispatch / argument failures
     are Faults (a non-Fault exception escaping a parser is C10's subject); the function raises
